@@ -69,7 +69,7 @@ def range_with_expression_bound(ast):
 
 
 def run(ck):
-    ck.prove(["AsModel.Theorems.C14", "AsModel.Theorems.C14Parse"])
+    ck.prove(["AsModel.Theorems.C14", "AsModel.Theorems.C14Parse", "AsModel.Theorems.C14NoJoin"])
     ck.build_harness("inproc")
     res = t2.run(ck)
     mm = t2.record(ck, res, ("nodes", "body", "validity", "status", "locations", "wellformed", "tree"), "node definitions, node references and syntactic validity")
